@@ -169,3 +169,39 @@ CLAIMS["C09"] = dict(
     note="Socket read/accept/connect cancellation belongs to the io properties (C18) and is not part of this check; SC memory; bounded instances.",
     design_ref="DESIGN.md §6 C09",
 )
+
+CLAIMS["C03"] = dict(
+    text="MpscQueue.tla / SpscQueue.tla (literal models of may_queue mpsc.rs / spsc.rs: one action per atomic access, blocks, "
+         "the closing bit, installation of the next block, delayed freeing and recycling) are checked exhaustively by TLC for "
+         "2 producers x 2 pushes across a block boundary: no duplicate, nothing invented, per-producer order, real-time FIFO, "
+         "None only if possibly empty, no use after free, each slot written once. The real queues run under the baton with a "
+         "verification point before every atomic access (automatic, in the atomic wrappers); producers and the consumer "
+         "(push / pop / bulk_pop / len / is_empty) are interleaved by seeded and preemption-bounded schedules at several "
+         "offsets to the 32/64-slot block boundary. Every recorded history (call / return / results) is validated twice: by "
+         "a Wing-Gong linearizability search against the sequential FIFO queue, and by TLC against QueueLin.tla (trace "
+         "validation; a rejected history is a violation); payload drop counters check exactly-once drop incl. queue drop.",
+    note="SC memory only (no weak-memory reordering); the literal L0 specs and the real code are related through the property-level "
+         "trace specification QueueLin.tla, not by step-level replay.",
+    design_ref="DESIGN.md §6 C03",
+)
+CLAIMS["C04"] = dict(
+    text="SpmcQueue.tla (literal model of may_queue spmc.rs: owner push / local_pop, takers' CAS on head, bit63 parking at the "
+         "last slot of a block, over-claim and skip, block freeing, address reuse) is checked exhaustively by TLC incl. an ABA "
+         "configuration: taken once, owner order, batch order, nothing lost, deadlock-freedom. The real Local/Steal pair and the "
+         "plain Queue run under the baton at atomic-access granularity (owner push/pop, 1-3 stealers' steal_into / pop / "
+         "bulk_pop, at and away from the block boundary); histories are judged by an exactly-once / order / empty-only-if-"
+         "possibly-empty oracle and validated by TLC against QueueLin.tla; a taker that never completes is a hang.",
+    note="SC memory; the ABA of a freed block re-allocated at the same address is covered by the TLC model only (the allocator is not controlled in real runs).",
+    design_ref="DESIGN.md §6 C04",
+)
+CLAIMS["C19"] = dict(
+    text="TimerList.tla (literal model of mpsc_list_v1.rs: push's swap / set_prev / link / head report, pop, pop_if, peek, "
+         "Entry::remove incl. its refusal to unlink the last node) is checked exhaustively by TLC for 2 producers and three "
+         "consumer programs: consumed once, pop order, list intact, head report sound and complete. The real list runs under "
+         "the baton at the tl.* points (2-3 producers, a consumer that pops, peeks, pop_ifs and removes head / middle / last "
+         "entries); histories are judged by a linearizability search against the removable-list specification (push = "
+         "insertion + later head report) and validated by TLC against QueueLin.tla; payload drop counters.",
+    note="The head report is judged at its own linearization point (the entry is the first one when the report is taken): a push whose "
+         "entry was popped before it returned reports `false` although it found the list empty (benign, see DESIGN.md). SC memory.",
+    design_ref="DESIGN.md §6 C19",
+)
